@@ -147,7 +147,8 @@ static bool v_sig_admit(const char *sig);
 static void v_viol(const char *sig, const char *fmt, ...) {
     uint64_t n = __sync_fetch_and_add(&v_sh->viol_count, 1);
     V_COUNT("violations_raw", 1);
-    if (n >= 100000 || !v_sig_admit(sig)) return;
+    (void)n;
+    if (!v_sig_admit(sig)) return;
     char buf[3000];
     va_list ap;
     va_start(ap, fmt);
@@ -393,7 +394,8 @@ static void v_report_death(const char *prefix, int w, int status, bool hang_conf
     v_sh->slot[V_MAX_WORKERS].counters[v_counter("violations_raw")] += 1;
     char key[300];
     snprintf(key, sizeof(key), "%s@%.40s", sig, frames); /* limiter key includes the faulting pc */
-    if (n < 100000 && v_sig_admit(key)) {
+    (void)n;
+    if (v_sig_admit(key)) {
         char first[300];
         const char *r = s->report[0] ? strstr(s->report, "ERROR:") : NULL;
         snprintf(first, sizeof(first), "%.250s", r ? r : "(no sanitizer report)");
